@@ -27,6 +27,7 @@ import (
 	"crypto/sha1"
 	"errors"
 	"fmt"
+	"math"
 	"math/big"
 	"net"
 	"os"
@@ -77,6 +78,8 @@ type lkNode struct {
 	flavour   string          // description of the item
 	form      string          // how the address is handed to the server: "" = 4-byte IPv4, "mapped" = 16-byte IPv4-mapped, "v6" = real IPv6
 	extra     []krpc.NodeInfo // lookups_closest.go: further entries of its nodes (4-byte IP) / nodes6 lists, verbatim
+	errCode   int             // lookups_r6.go: kind "err": the KRPC error code (0 with errForm "" = 201 "no")
+	errForm   string          // lookups_r6.go: kind "err": shape of the e value (list, string, malformed ...)
 }
 
 type lkCase struct {
@@ -111,6 +114,7 @@ type lkCase struct {
 	block    *lkBlock   // lookups_block.go: the server has an IP blocklist and the network tells the lookup about blocked addresses
 	lim      *lkLim     // lookups_limiter.go: a SendLimiter that limits; nodes that do not acknowledge announce_peer / put
 	cl       *lkClosest // lookups_closest.go: result-set / exhaustiveness / cancellation cases (C02, C03, C04)
+	r6       *lkR6      // lookups_r6.go: the socket reports inbound sources in the other byte form
 }
 
 func (c *lkCase) name() string { return fmt.Sprintf("%s/%s", c.api, c.desc) }
@@ -173,6 +177,7 @@ type lkState struct {
 	gateBroken int32
 	fx         *lkFaultState   // lookups_fault.go
 	cx         *lkClosestState // lookups_closest.go
+	r6Base     int             // lookups_r6.go: goroutines inside traversal / getput frames before the API call
 }
 
 func dumpReturn(r *krpc.Return) string {
@@ -208,8 +213,7 @@ func (st *lkState) replyFor(q *lkQuery) []byte {
 	case "silent":
 		return nil
 	case "err":
-		b, _ := bencode.Marshal(krpc.Msg{T: q.t, Y: "e", E: &krpc.Error{Code: 201, Msg: "no"}})
-		return b
+		return st.r6ErrReply(q) // lookups_r6.go: 201 "no" unless the node has a code / form of its own
 	case "badtype":
 		// token is an integer: the whole message fails to decode
 		return nil
@@ -291,6 +295,8 @@ func (st *lkState) garbageFor(q *lkQuery) []byte {
 		return nil
 	}
 	switch n.kind {
+	case "err":
+		return st.r6ErrGarbage(q) // lookups_r6.go: malformed errors
 	case "badtype":
 		return []byte(fmt.Sprintf("d1:rd2:id20:%s5:tokeni7ee1:t%d:%s1:y1:re", string(n.id[:]), len(q.t), q.t))
 	case "badlen":
@@ -474,7 +480,7 @@ func runLookupOnce(c *lkCase, rep int, report bool) (*lkState, lkResult) {
 		}
 	}
 	cfg := &dht.ServerConfig{
-		Conn:             st.packetConn(),
+		Conn:             st.r6Conn(st.packetConn()), // lookups_r6.go
 		NoSecurity:       true,
 		QueryResendDelay: st.resendDelay,
 		Logger:           log.NewLogger().FilterLevel(log.Critical),
@@ -513,6 +519,7 @@ func runLookupOnce(c *lkCase, rep int, report bool) (*lkState, lkResult) {
 	annReady := make(chan struct{})
 	consumerStopped := make(chan struct{})
 	consumerGo := make(chan struct{})
+	st.r6Before() // lookups_r6.go
 	switch c.api {
 	case "bootstrap":
 		go func() {
@@ -825,6 +832,7 @@ func runLookupOnce(c *lkCase, rep int, report bool) (*lkState, lkResult) {
 				}
 			}
 			oracle(prop, key, "no end within 8s case=%d %s sn=%s stop=%s@%d sub=%d", c.idx, c.name(), c.sn, c.stopAct, c.stopAt, c.sub)
+			st.r6Stuck() // lookups_r6.go
 			break
 		}
 		st.faultIdle()
@@ -904,6 +912,7 @@ func runLookupOnce(c *lkCase, rep int, report bool) (*lkState, lkResult) {
 		st.closestOracles(&res) // lookups_closest.go
 	}
 	st.closestQuiescence(&res, report) // lookups_closest.go
+	st.r6AfterReturn(&res)             // lookups_r6.go: goroutines of a returned Get / Put, caller context still alive
 	// ---------------- quiescence ----------------
 	dl := time.Now().Add(2 * time.Second)
 	for s.Stats().OutstandingTransactions != 0 && time.Now().Before(dl) {
@@ -1056,7 +1065,7 @@ func (st *lkState) oracles(res *lkResult) {
 				oracle("C12", "client-accepted-forged-value", "Get returned mutable seq=%d v=%s which does not verify under the requested key: %s", g.Seq, hx(g.V), tag)
 			}
 			// highest seq among the genuine items that were served before the end
-			var max int64 = -1 << 62
+			var max int64 = math.MinInt64 // (was -1 << 62: below the extreme seqs of lookups_r6.go)
 			for _, n := range c.nodes {
 				if n.genuine && n.item != nil && n.item.seq != nil && st.served[n.addr.String()] > 0 && *n.item.seq > max {
 					max = *n.item.seq
@@ -1555,6 +1564,7 @@ func lookupsEngine(seed uint64, tier string, args []string) {
 	cases = append(cases, lookupBlockCases(seed, tier, len(cases))...)   // lookups_block.go
 	cases = append(cases, lookupLimiterCases(seed, tier, len(cases))...) // lookups_limiter.go
 	cases = append(cases, lookupClosestCases(seed, tier, len(cases))...) // lookups_closest.go
+	cases = append(cases, lookupR6Cases(seed, tier, len(cases))...)      // lookups_r6.go
 	if only >= 0 && only < len(cases) {
 		cases = cases[:only+1]
 		if from < only {
